@@ -143,4 +143,33 @@ instance : Scalar Rat where
   posInf := 1000000000000
   toNat x := x.floor.toNat
 
+/-- Exact integer instance for kernel-checked (`decide`) witnesses: `+ - *` exact, `div` is integer division
+    (witnesses only use exact quotients), `pow` handles natural exponents, everything else is junk. -/
+instance : Scalar Int where
+  add := (· + ·)
+  sub := (· - ·)
+  mul := (· * ·)
+  div := (· / ·)
+  lt a b := decide (a < b)
+  le a b := decide (a ≤ b)
+  pow x a := if 0 ≤ a then x ^ a.toNat else 0
+  exp _ := 0
+  log _ := 0
+  sin _ := 0
+  cos _ := 0
+  tan _ := 0
+  sinh _ := 0
+  cosh _ := 0
+  tanh _ := 0
+  sqrt _ := 0
+  abs x := if x < 0 then -x else x
+  max a b := if a < b then b else a
+  min a b := if a < b then a else b
+  ofNat n := (n : Int)
+  ofSci m e := if e = 0 then (m : Int) else 0
+  neg x := -x
+  negInf := -1000000000000
+  posInf := 1000000000000
+  toNat x := x.toNat
+
 end Qeep
